@@ -2,6 +2,7 @@ import PatVerif.Basic
 import PatVerif.Hex
 import PatVerif.Generated.ScLimbs
 import PatVerif.Generated.FeLimbs
+import PatVerif.Generated.EdPoints
 /-! Second driver (C14/C15 only): runs the *translated* limb code of `Generated/ScLimbs.lean` and `Generated/FeLimbs.lean` — the
 definitions `Proofs/Sc*.lean` and `Proofs/Fe*.lean` are about — on the scalar and field operations of the stream, so that the
 translators' reading of the Go source is itself compared with the implementation on every run. -/
@@ -56,6 +57,52 @@ def run (op : String) (a b : Element) (k : Nat) (x : Bytes) : Option (Element ×
   | _ => none
 end Fe
 
+namespace Pt
+open PatVerif.Generated.FeLimbs PatVerif.Generated.EdPoints
+
+def z : Element := ⟨0, 0, 0, 0, 0⟩
+
+/-- `(*Point).SetBytes` (not translated: it branches on errors), restated over the translated field functions -/
+def decode (x : Bytes) : Option Point :=
+  if x.length ≠ 32 then none else
+  match SetBytes z (x.map UInt8.toNat) with
+  | .ok y =>
+    let y2 := Square z y
+    let u := Subtract z y2 PatVerif.Generated.EdPoints.feOne
+    let vv := Multiply z y2 PatVerif.Generated.EdPoints.d
+    let vv := PatVerif.Generated.FeLimbs.Add vv vv PatVerif.Generated.EdPoints.feOne
+    let r := SqrtRatio z u vv
+    if r.2 = 0 then none else
+    let xx := r.1
+    let xxNeg := Negate z xx
+    let xx := Select xx xxNeg xx ((x.getD 31 0).toNat / 128)
+    some ⟨xx, y, One z, Multiply z xx y⟩
+  | _ => none
+
+/-- `(*Point).bytes`, restated over the translated field functions -/
+def encode (v : Point) : Bytes :=
+  let zInv := Invert z v.z
+  let x := Multiply z v.x zInv
+  let y := Multiply z v.y zInv
+  let out := Bytes y
+  (out.set 31 (out.getD 31 0 ||| (IsNegative x * 128))).map UInt8.ofNat
+
+def run (op : String) (a b : Bytes) : String :=
+  let needB := op = "add" ∨ op = "sub" ∨ op = "equal"
+  let zp : Point := ⟨z, z, z, z⟩
+  match decode a, (if needB then decode b else some zp) with
+  | some P, some Q =>
+    match op with
+    | "add" => "ok " ++ hxv (encode (Point_Add zp P Q))
+    | "sub" => "ok " ++ hxv (encode (Point_Subtract zp P Q))
+    | "neg" => "ok " ++ hxv (encode (Point_Negate zp P))
+    | "double" => "ok " ++ hxv (encode (Point_Add zp P P))
+    | "recode" => "ok " ++ hxv (encode P)
+    | "equal" => if Point_Equal P Q = 1 then "ok 01" else "ok 00"
+    | _ => "-"
+  | _, _ => "undecodable"
+end Pt
+
 def answer (line : String) : String :=
   match line.splitOn " " with
   | ["c14.screduce", w] =>
@@ -71,6 +118,10 @@ def answer (line : String) : String :=
     match parseV x with
     | some x => if x.length = 32 then (if isReduced (asFn x) then "1" else "0") else "-"
     | none => "-"
+  | ["c14.pt", op, a, b] =>
+    match parseV a, parseV b with
+    | some a, some b => Pt.run op a b
+    | _, _ => "-"
   | [fe, op, a, b, k, x] =>
     if fe = "c14.fe" ∨ fe = "c14.fel" then
       match parseV a, parseV b, k.toNat?, parseV x with
